@@ -71,6 +71,24 @@ def calcInterest (s : St) (ctx : Ctx) (debt bh bt : Int) (pw : Option Int) : Res
 def msgCalc (s : St) (ctx : Ctx) (pw : Option Int) : Res :=
   calcInterest s ctx (s.vault.amountOut + s.vault.ia) s.vault.bh s.vault.bt pw
 
+/-- `MsgDeposit` as far as the accrual goes (x/vault/keeper/msg_server.go:281-303; `MsgWithdraw` :388-421, `MsgDraw` :507-576 and
+`MsgRepay` :660-740 have the same shape): the interest calculation on principal + booked interest with the vault's own stamp, then the
+vault — re-read — is stamped with the CURRENT height and time, unconditionally: also while the stability fee is zero (`MsgCreate`
+:152-156 writes `BlockHeight = 0` in that case), so the flag "accrue from the pair's `BlockTime`" is lost. -/
+def msgDeposit (s : St) (ctx : Ctx) (pw : Option Int) : Res :=
+  match msgCalc s ctx pw with
+  | .ok s1 => .ok { s1 with vault := { s1.vault with bh := ctx.height, bt := ctx.now } }
+  | .err => .err
+  | .panic => .panic
+
+/-- the repair of defect D36 (notes/C18.md; NOT what the code does): the message writes the flag while the fee is zero, as
+`MsgCreate` does. The driver accepts it as well as `msgDeposit`, so that a repaired tree checks clean. -/
+def msgDepositFix (s : St) (ctx : Ctx) (pw : Option Int) : Res :=
+  match msgCalc s ctx pw with
+  | .ok s1 => .ok { s1 with vault := { s1.vault with bh := if s1.pair.fee = 0 then 0 else ctx.height, bt := ctx.now } }
+  | .err => .err
+  | .panic => .panic
+
 /-- one vault of `VaultIterateRewards(ctx, rate, _, pairBt, app, pair, changeTypes)`; an error of the calculation
 makes the sweep return silently. `none` = panic. -/
 def iter (s : St) (ctx : Ctx) (rate : Dec) (pairBt : Int) (changeTypes : Bool) (pw : Option Int) : Option St :=
